@@ -29,8 +29,8 @@ async def capture_start_server(loop, config, **kw):
     # active while it starts, restore as soon as the server has been captured
     with contextlib.redirect_stdout(buf):
         task = loop.create_task(start_server(config, **kw))
-        for _ in range(200):
-            await asyncio.sleep(0)
+        for i in range(260):
+            await asyncio.sleep(0 if i < 200 else 0.1)  # later: let virtual time pass (start-up code that waits and retries)
             if len(loop.captured_servers) > n0 or task.done():
                 break
     if task.done():
